@@ -23,11 +23,16 @@ func judgeC08(rep *lib.Report, c *lib.Ctx, ln *printerLine, res *realResult, kas
 	var ph pCase
 	_ = json.Unmarshal(raw, &ph)
 	contents := map[string][]byte{}
+	byID := map[int]string{}
 	var mark func(ts []*lib.Term)
 	mark = func(ts []*lib.Term) {
 		for _, t := range ts {
 			if t.K == "rstring" || t.K == "rbytes" {
-				p := fmt.Sprintf("@@%d@@", len(contents))
+				p, seen := byID[t.ID]
+				if !seen {
+					p = fmt.Sprintf("@@%d@@", len(contents))
+					byID[t.ID] = p // the same term (same id) occurring twice keeps one placeholder: it is one value
+				}
 				contents[p] = c.Subst(t.B)
 				t.B = nil
 				for _, b := range []byte(p) {
